@@ -53,7 +53,19 @@ def run_scenario(sc: dict):
 
     seed = sc["seed"]
     rng = random.Random(seed)
+    state = {"member": None}
     log = observe.EventLog()
+    tstamps = []          # (event name, virtual time) of everything the cluster / driver logs
+    _emit = log.emit
+
+    def emit_ts(e, **f):
+        r = _emit(e, **f)
+        try:
+            tstamps.append((e, state["loop"].time()))
+        except Exception:  # noqa: BLE001
+            pass
+        return r
+    log.emit = emit_ts
     director = FaultDirector(rng, sc.get("faults", {"budget": 0}))
     cl = simcluster.Cluster(log, nodes=tuple(range(sc["nnodes"])), director=director, rng=rng)
     cl.add_topic(TOPIC, [rng.randrange(sc["nnodes"]) for _ in range(sc["nparts"])])
@@ -65,7 +77,6 @@ def run_scenario(sc: dict):
     wl = sc["workload"]
     name = "c1"
     info = {"hang": None, "exc": None, "iters": []}
-    state = {"member": None}
 
     W = observe.Wrappers()
 
@@ -199,6 +210,8 @@ def run_scenario(sc: dict):
             return
         t0 = loop.time()
         log.emit("Started", **snapshot())
+        state["t0"] = t0
+        state["mark"] = len(log.events)
         loop.iter_log = info["iters"] if sc.get("stop_at") is None else None
         loop.iter_t0 = t0
 
@@ -312,6 +325,11 @@ def run_scenario(sc: dict):
         import traceback
         info["exc"] = traceback.format_exc()[-1500:]
         log.emit("Crash", err=info["exc"][-200:])
+    if sc.get("stop_at") is None and state.get("t0") is not None:
+        # baseline: instants of the group / transaction protocol steps (the quick tier stops around them on purpose)
+        PROTO = {"JoinRequest", "JoinReply", "SyncRequest", "SyncReply", "GroupState", "OffsetCommitReply", "OffsetFetchReply",
+                 "AddPartitionsReply", "EndTxnReply", "TxnPrepare", "InitPidReply", "FetchReply", "BrokerApply"}
+        info["proto_times"] = sorted({round(t - state["t0"], 7) for e, t in tstamps if e in PROTO and t >= state["t0"]})
     out = []
     for ev in log.events:
         if ev["e"] not in ALPHABET and ev["e"] not in ("Hang", "Crash"):
